@@ -1,1 +1,4 @@
-// stub
+//! cw3 family: C04 (library-level threshold arithmetic, module `tally`) and the
+//! contract-level properties C03, C05, C06, C15 (module `multisig`).
+pub mod model;
+pub mod tally;
